@@ -239,7 +239,7 @@ func x509Setup(e *env, c *caseCtx, kind string) enum.JOSEInput {
 	e.mem.register(c.foreign.Kid, c.foreign.Public())
 	honest := x509Token{name: "honest", class: "x509/honest", did: d, chain: []*x509.Certificate{leaf.cert, inter.cert, root.cert}, x5t: leaf.cert, signKey: leaf.key, org: org}
 	c.data["x509"] = map[string]any{"root": root, "inter": inter, "leaf": leaf, "honest": honest, "kind": kind}
-	alg := enum.DefaultAlg(c.fam)
+	alg := c.algo()
 	tok := x509VC(honest, alg, now)
 	if kind == "vp" {
 		tok = x509VP(e, honest, alg, now)
@@ -397,7 +397,7 @@ func x509Scenario(e *env, r *ev.Run, c *caseCtx, consName, fam string, idx *int,
 			if rc.Variant != "x509:"+tk.name {
 				continue
 			}
-		} else if !r.Mine(*idx) {
+		} else if !mine(r, consName, fam, "x509", tk.name) {
 			continue
 		}
 		alg := enum.DefaultAlg(enum.FamilyOf(tk.signKey.Public()))
